@@ -28,7 +28,7 @@ CHECKS = {
         category="exploration",
         engine="E4 + H3",
         technique="bounded exhaustive input enumeration: all single-bit flips / truncations / extensions of every family frame against the real DataView::using with an independent bitwise CRC-32 reference, plus round trips through the real client/handler over the in-process transport",
-        text="Every value of a message family (fixed, text/bytes/option, nested, four tiny types with alignment 1-2 and sizes not divisible by 4; payload sizes from a boundary grid up to 64 KiB, 1 MiB in thorough) is sent through the real RpcClient -> handle_connection -> handler and back and compared on both sides; every ErrorCode x message text comes back unchanged; for every frame up to 400 (quick) / 9000 (thorough) bytes ALL single-bit flips, ALL truncations, 12 extensions, every CRC-valid body shorter than the archived root, and for frames above one 16 KiB block (up to 40 KB quick / 140 KB thorough) every bit of the first 8 and last 128 bytes plus a stride through the middle are judged by DataView::using exactly as the reference predicate demands, and the same hostile frames handed to a typed handler are refused as InvalidPayload without the handler running or anything panicking.",
+        text="Every value of a message family (fixed, text/bytes/option, nested, four tiny types with alignment 1-2 and sizes not divisible by 4; payload sizes from a boundary grid up to 64 KiB, 1 MiB in thorough) is sent through the real RpcClient -> handle_connection -> handler and back and compared on both sides; every ErrorCode x message text comes back unchanged; for every frame up to 400 (quick) / 9000 (thorough) bytes ALL single-bit flips, ALL truncations, 12 extensions, every CRC-valid body shorter than the archived root, and for frames above one 16 KiB block (up to 40 KB quick / 140 KB thorough) every bit of the first 8 and last 128 bytes plus a stride through the middle are judged by DataView::using exactly as the reference predicate demands, and the same hostile frames handed to a typed handler are refused as InvalidPayload without the handler running or anything panicking. A further family carries shared pointers (Arc<String>, the same allocation twice inside one message and again in later messages on the same thread).",
         note="In-process transport: hyper/h2 chunking bypassed (single-chunk bodies). Debug assertions on, so an out-of-range root position is a panic, not UB.",
         design="DESIGN.md section 3, C12",
     ),
@@ -36,7 +36,7 @@ CHECKS = {
         category="model_checking",
         engine="E1 + H3",
         technique="exhaustive enumeration of all add/remove sequences (no state merging) on a real Server, probing every (service, message) pair through real clients after every event, against a set-of-names reference model",
-        text="All 9^5 (quick) / 9^7 (thorough) sequences over {add, remove} on five services (two sharing a message type, one with two message types, two registered under one shared service name), including re-adding and removing absent services; after every event six probes through real RpcClients must be served by exactly the right handler iff the reference says registered, else refused as ServiceUnavailable.",
+        text="All 9^5 (quick) / 9^7 (thorough) sequences over {add, remove} on five services (two sharing a message type, one with two message types, two registered under one shared service name), including re-adding and removing absent services; after every event six probes through real RpcClients must be served by exactly the right handler iff the reference says registered, else refused as ServiceUnavailable. A sixth service is generic and keeps the trait's default name (the type name, containing '<', '>' and '::').",
         note="Dispatch through the in-process transport (URI construction, handler lookup, status encoding are production code).",
         design="DESIGN.md section 3, C13",
     ),
@@ -44,7 +44,7 @@ CHECKS = {
         category="fault_enumeration",
         engine="E3 (turmoil, separate binary vsim)",
         technique="exhaustive enumeration of fault scripts (hold/release/partition/repair at 16 decision instants, <=1 event quick / <=2 thorough) over the real hyper/h2 client and server on turmoil's simulated network with fixed latency and seeded RNG; every run repeated for reproducibility; workers in child processes",
-        text="Workloads: three sequential requests; two concurrent first requests on a fresh channel; three concurrent requests on a warmed-up connection; one 1 MiB request (multi-chunk bodies); 9 sets of concurrent large replies (45-75 KB together, against the 64 KiB HTTP/2 connection window); 9 variants of typed requests issued while a 20-55 KB raw-body download on the same channel is left unread (replies then start with a short frame and continue after the window update); the sequential and warm-concurrent workloads once more through send_owned; the warm-concurrent workload once more with one of the three clients of the channel configured with a 15 s timeout. Handler delays 0 / 0.5 s / 3 s, client timeout 2 s or none. For every script and combination each request must return Ok(id*10) for its own id with its payload echo intact, or a ConnectionError/Timeout status, nothing else and no panic; the handler runs at most once per id; with a timeout configured the call returns within 2 s (+5 ms) of simulated time. A simulation that aborts the process is isolated in a child process and reported as a violation. A further workload prepares three calls first (send returns a lazy future) and awaits them one after the other, with handler delays {0, 0.5, 0.9, 3 s}: each call's timeout is its own.",
+        text="Workloads: three sequential requests; two concurrent first requests on a fresh channel; three concurrent requests on a warmed-up connection; one 1 MiB request (multi-chunk bodies); 9 sets of concurrent large replies (45-75 KB together, against the 64 KiB HTTP/2 connection window); 9 variants of typed requests issued while a 20-55 KB raw-body download on the same channel is left unread (replies then start with a short frame and continue after the window update); the sequential and warm-concurrent workloads once more through send_owned; the warm-concurrent workload once more with one of the three clients of the channel configured with a 15 s timeout. Handler delays 0 / 0.5 s / 3 s, client timeout 2 s or none. For every script and combination each request must return Ok(id*10) for its own id with its payload echo intact, or a ConnectionError/Timeout status, nothing else and no panic; the handler runs at most once per id; with a timeout configured the call returns within 2 s (+5 ms) of simulated time. A simulation that aborts the process is isolated in a child process and reported as a violation. A further workload prepares three calls first (send returns a lazy future) and awaits them one after the other, with handler delays {0, 0.5, 0.9, 3 s}: each call's timeout is its own. A further workload runs the sequential requests with the client timeout set to Duration::MAX.",
         note="turmoil 0.4 model: hold delays, partition drops without retransmission. A request without client timeout that never completes is an allowed outcome. turmoil 0.4's own TcpStream::poll_read panics when a segment does not fit the reader's buffer; scenarios that hit it are counted (<=5% by a guard) and not judged.",
         design="DESIGN.md section 3, C14",
     ),
@@ -76,7 +76,7 @@ CHECKS = {
         category="fault_enumeration",
         engine="E1 Layer B cluster",
         technique="exhaustive enumeration of layouts x issuer x level x operation kind x prior selection x every assignment of {ack, request lost, reply lost, storage failure} to the other nodes, executed through the public store handle on a real in-process cluster",
-        text="5 (quick) / 11 (thorough) layouts of 2-4 nodes in 1-3 data centres (plus 6-, 7-, 8- and 9-node clusters with at most two non-acknowledging nodes), every issuer, all 8 levels, 2/4 operation kinds, fresh and pre-advanced selector cursors, all 6^(N-1) fault assignments ({ack, request lost, reply lost, storage failure, storage failure after the first document of a bulk call, node without the consistency service answering ServiceUnavailable}). At the moment the call returns every node's storage is read: Ok implies the issuer and at least the required number of other nodes (and per-DC majorities) hold the write or a newer one; a consistency error must report exactly the number of replicas that applied the write and had their reply delivered, the local write must be in place, and after the faults clear a batch flush plus a repair round must bring it to every node. After growth: the issuer selects at the level while the cluster has only k of its members (every k), the membership is set to the full layout and the write is issued at once; the requirements are those of the full layout.",
+        text="5 (quick) / 11 (thorough) layouts of 2-4 nodes in 1-3 data centres (plus 6-, 7-, 8- and 9-node clusters with at most two non-acknowledging nodes), every issuer, all 8 levels, 2/4 operation kinds, fresh and pre-advanced selector cursors, all 6^(N-1) fault assignments ({ack, request lost, reply lost, storage failure, storage failure after the first document of a bulk call, node without the consistency service answering ServiceUnavailable}). At the moment the call returns every node's storage is read: Ok implies the issuer and at least the required number of other nodes (and per-DC majorities) hold the write or a newer one; a consistency error must report exactly the number of replicas that applied the write and had their reply delivered, the local write must be in place, and after the faults clear a batch flush plus a repair round must bring it to every node. After growth: the issuer selects at the level while the cluster has only k of its members (every k), the membership is set to the full layout and the write is issued at once; the requirements are those of the full layout. One replica may also be stalled (its storage call never returns) while the others acknowledge: the call may stay pending to the 60 s horizon, but if it returns, its answer is judged like any other.",
         note="The issuer's own storage does not fail. Selection failures are only checked to be justified (C15 decides selection).",
         design="DESIGN.md section 3, C06",
     ),
@@ -92,7 +92,7 @@ CHECKS = {
         category="model_checking",
         engine="E2, Layer B single node",
         technique="stateless schedule exploration of all await-point interleavings of k concurrent first users of a fresh keyspace on a real node (five real entry paths), and of users of an existing keyspace against the group's real tombstone sweep task, re-execution from choice prefixes",
-        text="k=2 tasks (all 13 combinations of entry paths: group lookup + Set, public put, incoming ConsistencyService RPC, incoming GetState RPC, the node's own repair cycle against a peer holding the keyspace) over ALL interleavings, k=3 up to 2 (quick) / 6 (thorough) deviations, fine-grained mode (one task poll per step). After each execution the set returned by a new lookup must contain every acknowledged id and storage must hold exactly the acknowledged writes. Later uses: with the keyspace existing and the group's real hourly tombstone sweep task due, one or two tasks (four entry paths) interleaved with the sweep's steps one poll at a time (<=3/<=5 deviations); same oracle plus the earlier document must still be in the set. Two fresh keyspaces: each task makes the first use of its own fresh name (writer x {writer, GetState}, all schedules and fine-grained); each keyspace's set must hold its acknowledged ids. First uses of a fresh keyspace are also explored with the tombstone sweep coming due at a moment the explorer chooses (virtual time moving one hour is a schedulable step), so that the sweep can meet a keyspace that is registered but still empty.",
+        text="k=2 tasks (all 13 combinations of entry paths: group lookup + Set, public put, incoming ConsistencyService RPC, incoming GetState RPC, the node's own repair cycle against a peer holding the keyspace) over ALL interleavings, k=3 up to 2 (quick) / 6 (thorough) deviations, fine-grained mode (one task poll per step). After each execution the set returned by a new lookup must contain every acknowledged id and storage must hold exactly the acknowledged writes. Later uses: with the keyspace existing and the group's real hourly tombstone sweep task due, one or two tasks (four entry paths) interleaved with the sweep's steps one poll at a time (<=3/<=5 deviations); same oracle plus the earlier document must still be in the set. Two fresh keyspaces: each task makes the first use of its own fresh name (writer x {writer, GetState}, all schedules and fine-grained); each keyspace's set must hold its acknowledged ids. First uses of a fresh keyspace are also explored with the tombstone sweep coming due at a moment the explorer chooses (virtual time moving one hour is a schedulable step), so that the sweep can meet a keyspace that is registered but still empty. After every execution a fresh peer node runs one real repair cycle against the node and must end up holding every acknowledged write (what the node advertises through PollKeyspace and serves through GetState/FetchDocs); scenarios with a first user abandoned by its caller after k polls (k = 1..6 / 1..9) next to first users that complete.",
         note="Await-point granularity on a current-thread runtime; the property's window lies across awaits.",
         design="DESIGN.md section 3, C18",
     ),
@@ -108,7 +108,7 @@ CHECKS = {
         category="fault_enumeration",
         engine="E1 by replay + crash points, Layer B single node",
         technique="exhaustive crash-point enumeration over request histories on the real keyspace group/actors: after every history and inside every possible next request after each document written by storage; restart = fresh KeyspaceGroup + real load_states_from_storage on the same store, compared with the store's rows",
-        text="Histories over ~35 (quick) / ~65 (thorough) requests on two keyspaces (single and bulk, two ids sharing one stamp as put_many/del_many produce, same id twice, both sources, purge, transient storage failures of single requests, bulk calls failing part-way with a prefix or everything but the first document written) are enumerated breadth-first to depth 4/5 (state cap 30 k / 300 k, a cap hit is reported with the depth completed) and deduplicated by the node's whole state. At every crash point the rebuilt sets must hold exactly the live ids, tombstones and stamps storage holds for every keyspace storage lists, keyspaces with rows must be listed, the restarted node must keep agreeing with its store after one more request, every acknowledged request must be durable in storage (the newest acknowledged mutation per id, at that stamp or newer, unless behind the cut-off), and between requests the rebuilt set must accept every pool operation the pre-restart set accepted, for probes within one hour of everything the node has seen (a restart must not make the node refuse repair traffic inside the forgiveness period). Thorough adds file-backed SQLite and LMDB with a real stop (runtime dropped, LMDB worker thread joined, environment closed) and reopen; in-request crash points wait for the storage wrapper's park signal because these backends write on their own thread. Both tiers additionally run file-backed SQLite and LMDB (real close and reopen) over ids whose byte order and signed order differ from their numeric order {1, 256, 65536, 2^63+1} with every subset of them deleted; an acknowledged put must be reported by storage as a live document with its bytes and an acknowledged delete as a tombstone.",
+        text="Histories over ~35 (quick) / ~65 (thorough) requests on two keyspaces (single and bulk, two ids sharing one stamp as put_many/del_many produce, same id twice, both sources, purge, transient storage failures of single requests, bulk calls failing part-way with a prefix or everything but the first document written) are enumerated breadth-first to depth 4/5 (state cap 30 k / 300 k, a cap hit is reported with the depth completed) and deduplicated by the node's whole state. At every crash point the rebuilt sets must hold exactly the live ids, tombstones and stamps storage holds for every keyspace storage lists, keyspaces with rows must be listed, the restarted node must keep agreeing with its store after one more request, every acknowledged request must be durable in storage (the newest acknowledged mutation per id, at that stamp or newer, unless behind the cut-off), and between requests the rebuilt set must accept every pool operation the pre-restart set accepted, for probes within one hour of everything the node has seen (a restart must not make the node refuse repair traffic inside the forgiveness period). Thorough adds file-backed SQLite and LMDB with a real stop (runtime dropped, LMDB worker thread joined, environment closed) and reopen; in-request crash points wait for the storage wrapper's park signal because these backends write on their own thread. Both tiers additionally run file-backed SQLite and LMDB (real close and reopen) over ids whose byte order and signed order differ from their numeric order {1, 256, 65536, 2^63+1} with every subset of them deleted; an acknowledged put must be reported by storage as a live document with its bytes and an acknowledged delete as a tombstone. The same block rewrites and deletes one id at stamps whose seconds have different numbers of decimal digits (99 999 990 s / 100 000 020 s).",
         note="Crash granularity = storage call boundaries and 'storage wrote k documents, set not yet updated'. Torn writes inside SQLite/LMDB are not modelled.",
         design="DESIGN.md section 3, C07",
     ),
@@ -132,7 +132,7 @@ CHECKS = {
         category="model_checking",
         engine="E1 Layer A",
         technique="local clauses: stateless DFS over timely delivery sequences with purge events on the real OrSWotSet (purge evaluated in every state, stale-operation probes); cluster clause: explicit-state DFS over a 2-3 replica model with explicit time and clock skew whose replicas are real OrSWotSet values, timeliness enforced by the explorer, differential oracle against a never-purging twin in every state",
-        text="Local: in every state reached by timely delivery sequences (pool with >1h gaps so purges fire, both sources, up to 2 purges, depth 6/8) a purge leaves lookups and live entries unchanged, returns only genuine tombstones older than min-over-sources minus 1h, never lowers a cut-off, and every operation from the deleting node not newer than a purged delete is refused without changing the state, right after the purge and in every later state of the history. Cluster: events issue / direct delivery / repair (real diff + actor-style batches) / purge / 20-minute time advance with skew {0,20} min; the explorer refuses to advance time while an operation would stay undelivered beyond 1h minus the skew spread; every state after a purge is compared with a twin that saw the same events without purges, and is also closed (pending deliveries, two full repair rounds) and compared with twin and the last-writer-wins reference (quick: 3.8 M model states, 7 k closings). Third block (actor): on the real keyspace actor behind the fault-injecting store, after a prefix that makes two tombstones purgeable, every sequence (length 4 quick / 5 thorough) of purges whose storage call succeeds / is refused / is refused for one document / fails after one, re-writes and re-deletes of the purged id, a stale insert of the deleting node, another node's write and unrelated writes; a purge (failed or not) must leave the live documents of set and storage untouched, the stale insert never becomes visible, and the end result equals that of a never-purging twin actor.",
+        text="Local: in every state reached by timely delivery sequences (pool with >1h gaps so purges fire, both sources, up to 2 purges, depth 6/8) a purge leaves lookups and live entries unchanged, returns only genuine tombstones older than min-over-sources minus 1h, never lowers a cut-off, and every operation from the deleting node not newer than a purged delete is refused without changing the state, right after the purge and in every later state of the history. Cluster: events issue / direct delivery / repair (real diff + actor-style batches) / purge / 20-minute time advance with skew {0,20} min; the explorer refuses to advance time while an operation would stay undelivered beyond 1h minus the skew spread; every state after a purge is compared with a twin that saw the same events without purges, and is also closed (pending deliveries, two full repair rounds) and compared with twin and the last-writer-wins reference (quick: 3.8 M model states, 7 k closings). Third block (actor): on the real keyspace actor behind the fault-injecting store, after a prefix that makes two tombstones purgeable, every sequence (length 4 quick / 5 thorough) of purges whose storage call succeeds / is refused / is refused for one document / fails after one, re-writes and re-deletes of the purged id, a stale insert of the deleting node, another node's write and unrelated writes; a purge (failed or not) must leave the live documents of set and storage untouched, the stale insert never becomes visible, and the end result equals that of a never-purging twin actor. The actor block runs from three prefixes: the second early delete accepted, refused by the storage, refused and delivered again.",
         note="Cluster model replicas are real OrSWotSet values; the actor's batch glue is restated (bound to the code by C02/C01). Dedup key includes the path length because the event bound is a path property. 2-3 replicas, <=4 operations, 2 keys.",
         design="DESIGN.md section 3, C08",
     ),
